@@ -43,6 +43,38 @@ RULE = ("generated: a case = (layout, buffer length, append flag, #subpaths, #wr
 
 LAYOUTS = [(1, 1), (1, 2), (1, 3), (1, 4), (2, 2)]
 
+ENV_KEYS = ("routing", "buffer_kb", "issend_freq", "num_irecvs", "isends_wait", "placement")
+
+
+def env_of(case, base=None):
+    """the communicator / simulator settings of a case (recorded in the case, so a replay runs under the same settings)"""
+    e = dict(base or {})
+    e["YGM_COMM_ROUTING"] = case.get("routing", "NONE")
+    for key, var in (("buffer_kb", "YGM_COMM_BUFFER_SIZE_KB"), ("issend_freq", "YGM_COMM_ISSEND_FREQ"), ("num_irecvs", "YGM_COMM_NUM_IRECVS"),
+                     ("isends_wait", "YGM_COMM_NUM_ISENDS_WAIT")):
+        if case.get(key) is not None:
+            e[var] = case[key]
+    if case.get("placement") == "cyclic":
+        e["SIMMPI_PLACEMENT"] = "cyclic"
+    return e
+
+
+def rotate_env(cases):
+    """environment dimension rotated over the existing cases (not multiplied): Issend frequency, posted receives, isends-wait,
+    node placement; send-buffer sizes 0 and 1 KB occur with every kind"""
+    per_kind = {}
+    for i, c in enumerate(cases):
+        c.setdefault("issend_freq", (8, 0, 1)[i % 3])
+        c.setdefault("num_irecvs", (8, 1, 2)[(i + i // 3) % 3])
+        c.setdefault("isends_wait", (4, 0, 1)[(i + 2 * (i // 3) + i // 9) % 3])
+        if c["nodes"] > 1:
+            c.setdefault("placement", "cyclic" if i % 2 == 0 else "block")
+        j = per_kind.get(c["kind"], 0)
+        per_kind[c["kind"]] = j + 1
+        if "buffer_kb" not in c:
+            c["buffer_kb"] = (None, 0, 1, None, 1, 0)[j % 6]
+    return cases
+
 
 def unhex(h):
     return b"" if h == "-" else bytes.fromhex(h)
@@ -70,7 +102,7 @@ def gen_mo_cases(tier, seed):
                     cases.append({"kind": "mo", "nodes": nodes, "ppn": ppn, "L": L, "append": append,
                                   "nsub": rnd.choice([1, 2, 5, 9]), "nwrites": rnd.choice([0, 1, 6, 25]) if rnd.random() < 0.3 else rnd.choice([8, 20, 40]),
                                   "maxlen": rnd.choice([3, 30, 200]), "flags": flags, "seed": rnd.randrange(1, 10 ** 9),
-                                  "routing": rnd.choice(["NONE", "NR", "NLNR"]), "buffer_kb": rnd.choice([None, None, 1, 0]),
+                                  "routing": rnd.choice(["NONE", "NR", "NLNR"]),
                                   "sim_seed": rnd.randrange(1, 10 ** 6)})
     # directed: big lines against the default 1 MiB buffer (crosses the real threshold)
     cases.append({"kind": "mo", "nodes": 1, "ppn": 2, "L": -1, "append": 0, "nsub": 2, "nwrites": 6, "maxlen": 400000, "flags": 1,
@@ -90,8 +122,7 @@ def run_case(binary, case):
         args = ["day", case["seed"], case["L"], case["nwrites"], ",".join(map(str, case["ts"]))]
     # a local time zone far from UTC: localtime instead of gmtime would show
     return C.run_sim(binary, args, nodes=case["nodes"], ppn=case["ppn"], sim_seed=case.get("sim_seed", 1), want_log=False, timeout=120,
-                     env=dict({"TZ": "XYZ+11:30", "YGM_COMM_ROUTING": case.get("routing", "NONE")},
-                              **({"YGM_COMM_BUFFER_SIZE_KB": case["buffer_kb"]} if case.get("buffer_kb") is not None else {})))
+                     env=env_of(case, {"TZ": "XYZ+11:30"}))
 
 
 def parse_mo(sr, ranks):
@@ -268,6 +299,9 @@ def check_mo(res, case, sr, model_ok):
     res.count("append" if append else "trunc")
     res.count("routing=%s" % case.get("routing", "NONE"))
     res.count("comm-buffer-kb=%s" % case.get("buffer_kb"))
+    res.count("issend-freq=%s irecvs=%s isends-wait=%s" % (case.get("issend_freq"), case.get("num_irecvs"), case.get("isends_wait")))
+    if case.get("placement") == "cyclic":
+        res.count("placement=cyclic")
     for f in feats:
         res.count(f)
     if feats & {"multi-origin", "old+append", "old+trunc"}:
@@ -387,7 +421,7 @@ def run(tier, seed, model_ok=True):
         return res
     if not model_ok:
         res.corr_failures.append({"relation": "model driver available", "what": "Lean library does not build", "case": None})
-    cases = gen_mo_cases(tier, seed) + gen_day_cases(tier, seed)
+    cases = rotate_env(gen_mo_cases(tier, seed) + gen_day_cases(tier, seed))
     runs = C.pmap(lambda c: (c, run_case(binary, c)), cases)
     for c, sr in runs:
         if c["kind"] == "mo":
@@ -407,7 +441,7 @@ def replay(data):
     if binary is None:
         print(err[-500:])
         return False
-    keep = {k: case[k] for k in ("kind", "nodes", "ppn", "L", "append", "nsub", "nwrites", "maxlen", "flags", "seed", "sim_seed", "ts", "routing", "buffer_kb") if k in case}
+    keep = {k: case[k] for k in ("kind", "nodes", "ppn", "L", "append", "nsub", "nwrites", "maxlen", "flags", "seed", "sim_seed", "ts") + ENV_KEYS if k in case}
     sr = run_case(binary, keep)
     res = C.Result()
     (check_mo if keep["kind"] == "mo" else check_day)(res, keep, sr, True)
